@@ -37,6 +37,10 @@ FORMULAS = {
     "y ~ a": (["y", "a"], True),
     "y ~ a | A": (["y", "a", "A"], True),
     "hashed(A, levels=3) + a": (["a"], False),  # hashed() stringifies its input: a null in A is not null after evaluation
+    # parts without any column still have rows (and, on pandas output, an index)
+    "y ~ 0": (["y"], True),
+    "y ~ a | 0": (["y", "a"], True),
+    "0": ([], False),
 }
 INDEXES = {
     "default": lambda n: None,
@@ -343,6 +347,85 @@ def drv_2d(c, ctx, col):
     col.sample(detail)
 
 
+ZVALS = [0.5, 4.0, -1.25, 9.0]
+CONTAINERS = ["list-nan", "list-None", "ndarray", "series", "dict-int-keys", "dict-str-keys", "ndarray-2d"]
+
+
+def container(kind, vals):
+    """the factor values `vals` (None = null) held in one of the containers the null handling dispatches on"""
+    f = [np.nan if v is None else float(v) for v in vals]
+    if kind == "list-nan":
+        return list(f)
+    if kind == "list-None":
+        return list(vals)
+    if kind == "ndarray":
+        return np.array(f)
+    if kind == "series":
+        return pd.Series(f)
+    if kind == "dict-int-keys":
+        return {1: np.array(f), 2: np.array(f) * 2 + 1}
+    if kind == "dict-str-keys":
+        return {"u": np.array(f), "v": np.array(f) * 2 + 1}
+    if kind == "ndarray-2d":
+        return np.column_stack([np.array(f), np.ones(len(f))])
+    raise AssertionError(kind)
+
+
+def drv_containers(c, ctx, col):
+    """a factor taken from the context, held in every container type the null handling knows (list, array, series, dict with integer /
+    string keys, 2-D array, sparse matrix) x EVERY null pattern over it x <= 1 null in a x drop set x output x policy"""
+    n = ctx["n"]
+    kind = c.pick(CONTAINERS)
+    formula = c.pick(["z", "z + a", "a + z"])
+    z_null = pattern(c, n)
+    a_null = c.pick([(), (1,)])
+    dropname = c.pick(["none", "empty", "{0}", "{0,2}"])
+    output = c.pick(["pandas", "numpy", "sparse"])
+    policy = c.pick(["drop", "raise"])
+    df = make_frame(n, a_null, (), (), "strings")
+    vals = [None if i in z_null else ZVALS[i] for i in range(n)]
+    nulls = set(z_null) | (set(a_null) if "a" in formula else set())
+    caller = DROPSETS[dropname]
+    if caller is not None and any(i >= n for i in caller):
+        raise Skip()
+    key = "containers %r z=%s z_null=%s a_null=%s drop=%s output=%s policy=%s" % (formula, kind, z_null, a_null, dropname, output, policy)
+    detail = {"formula": formula, "z_container": kind, "z": vals, "a_null": a_null, "drop_rows": dropname, "output": output, "policy": policy}
+    drop = set(caller) if caller is not None else None
+    err, got = None, None
+    try:
+        got = model_matrix(formula, df, context={"z": container(kind, vals)}, na_action=policy, output=output, drop_rows=drop)
+    except Exception as e:  # noqa
+        err = e
+    if policy == "raise":
+        if nulls:
+            col.interesting()
+        if bool(nulls) != (err is not None):
+            col.violation(key, dict(detail, raised=repr(err), null_rows=sorted(nulls)), sig="containers:raise:" + ("no-error-despite-nulls" if nulls else "error-without-nulls"))
+        return
+    kept = [i for i in range(n) if i not in (caller or ()) and i not in nulls]
+    removed = set(range(n)) - set(kept)
+    if len(removed) >= 2 and kept:
+        col.interesting()
+    if err is not None:
+        col.violation(key, dict(detail, error="%s: %s" % (type(err).__name__, str(err)[:200])), sig="containers:drop:raised:" + type(err).__name__)
+        return
+    G = dense(got)
+    if G.shape[0] != len(kept):
+        col.violation(key, dict(detail, rows=int(G.shape[0]), kept=kept), sig="containers:drop:wrong-row-count")
+        return
+    if kept:
+        want = dense(model_matrix(formula, df.iloc[kept], context={"z": container(kind, [vals[i] for i in kept])}, na_action="ignore", output=output))
+        if G.shape != want.shape or not np.allclose(G, want, rtol=1e-12, atol=1e-12, equal_nan=True):
+            col.violation(key, dict(detail, got=G.tolist(), want=want.tolist(), kept=kept), sig="containers:drop:wrong-rows")
+            return
+    if output == "pandas" and list(got.index) != list(df.index[kept]):
+        col.violation(key, dict(detail, index=list(got.index), expected=list(df.index[kept])), sig="containers:drop:wrong-index")
+        return
+    if drop is not None and {int(i) for i in drop} != removed:
+        col.violation(key, dict(detail, drop_set_after=sorted(int(i) for i in drop), expected=sorted(removed)), sig="containers:drop:drop-set-not-updated")
+    col.sample(detail)
+
+
 def drv_reuse(c, ctx, col):
     """a fitted spec applied to data with nulls (drop policy travels with the spec)"""
     n = ctx["n"]
@@ -463,6 +546,9 @@ def subchecks(tier, seed):
                     "policies": ["drop", "raise"]}),
         Sub("drop-2d-factor", drv_2d, {"cells": [1.5, np.nan, np.inf, -np.inf]} if not quick else {"cells": [np.inf, np.nan, -np.inf]}, shard_depth=3,
             bounds={"rows": 3, "cells": "every 3x2 array over {1.5, NaN, +inf, -inf} (quick: {NaN, +inf, -inf})", "plus": "<= 1 null in a", "policies": ["drop", "raise"]}),
+        Sub("drop-factor-containers", drv_containers, {"n": 3 if quick else 4}, shard_depth=3,
+            bounds={"rows": 3 if quick else 4, "containers": CONTAINERS, "null_patterns": "all 2^n over the context factor z; <= 1 null in a",
+                    "drop_sets": ["none", "empty", "{0}", "{0,2}"], "outputs": ["pandas", "numpy", "sparse"], "policies": ["drop", "raise"]}),
         Sub("drop-reuse", drv_reuse, {"n": 3, "formulas": [f for f in allf if "hashed" not in f], "max_nulls": 1 if quick else 2}, shard_depth=3,
             bounds={"rows": 3, "fit": "clean frame", "apply": "frame with <= %d nulls over a, A; <= 1 in y" % (1 if quick else 2)}),
         Sub("policies", drv_policies, {"n": 3 if quick else 4, "formulas": allf, "entries": pe[:3] if quick else pe, "raise_dropsets": ["none", "{0,2}"] if quick else ["none", "{0}", "{0,2}"],
